@@ -191,20 +191,21 @@ fn run_history(ctx: &mut Ctx, pool: &[Entry], hist: &[usize], target: usize) {
             (Err(_), Ok(_)) => "err_instead_of_ok",
             _ => "different_error",
         };
-        let labels: Vec<&str> = hist.iter().map(|&i| pool[i].label).collect();
-        ctx.violation(
-            format!("C12.history_independent|{}", what),
-            "C12.history_independent",
-            format!(
-                "after {} earlier builds ({:?}...), message {:?} builds to {} but a fresh builder gives {}",
-                hist.len(),
-                &labels[..labels.len().min(6)],
-                t.msg.number(),
-                got.as_ref().map(|f| hex_short(f)).unwrap_or_else(|e| e.clone()),
-                t.fresh.as_ref().map(|f| hex_short(f)).unwrap_or_else(|e| e.clone())
-            ),
-            json!({"kind":"history","messages": hist.iter().chain(std::iter::once(&target)).map(|&i| vtree::to_v(&pool[i].msg).map(|v| vtree::v_to_json(&v)).unwrap_or(Value::Null)).collect::<Vec<_>>()}),
-        );
+        let fresh = &t.fresh;
+        ctx.violation_lazy(format!("C12.history_independent|{}", what), "C12.history_independent", || {
+            let labels: Vec<&str> = hist.iter().map(|&i| pool[i].label).collect();
+            (
+                format!(
+                    "after {} earlier builds ({:?}...), message {:?} builds to {} but a fresh builder gives {}",
+                    hist.len(),
+                    &labels[..labels.len().min(6)],
+                    t.msg.number(),
+                    got.as_ref().map(|f| hex_short(f)).unwrap_or_else(|e| e.clone()),
+                    fresh.as_ref().map(|f| hex_short(f)).unwrap_or_else(|e| e.clone())
+                ),
+                json!({"kind":"history","messages": hist.iter().chain(std::iter::once(&target)).map(|&i| vtree::to_v(&pool[i].msg).map(|v| vtree::v_to_json(&v)).unwrap_or(Value::Null)).collect::<Vec<_>>()}),
+            )
+        });
     }
     if ctx.want_sample() && hist.len() >= 2 && nontrivial && ctx.evaluations % 401 == 0 {
         ctx.sample(|| json!({"history": hist.iter().map(|&i| format!("{}:{:?}:{}", pool[i].label, pool[i].msg.number(), pool[i].fresh.as_ref().map(|f| f.len().to_string()).unwrap_or_else(|e| e.clone()))).collect::<Vec<_>>(), "target": format!("{:?} -> {} bytes", t.msg.number(), tlen)}));
@@ -240,6 +241,10 @@ pub fn run(p: &Params) -> Outcome {
                 _ => {}
             }
             let target = rng.usize_below(pool.len());
+            if ctx.saturated() {
+                ctx.count("stopped_early_after_20000_violations");
+                break;
+            }
             run_history(ctx, &pool, &hist, target);
             if i % 64 == 0 {
                 // every pool entry right after the longest all-ones build
